@@ -4,6 +4,7 @@ import (
 	"fmt"
 	"go/ast"
 	"go/token"
+	"go/types"
 	"net/textproto"
 	"strconv"
 	"strings"
@@ -24,6 +25,8 @@ func checkC15(w *World, r *Report) {
 	p := newProto(w)
 	checkC04ManagedAs(w, r, p, "C15.3")
 	checkC15Redaction(w, r)
+	checkParamsSelector(w, r, "C15.5")
+	checkC15BrokenConn(w, r)
 }
 
 func checkC15Recover(w *World, r *Report) {
@@ -387,4 +390,48 @@ func isConstOperand(bo *ssa.BinOp) bool {
 	_, x := bo.X.(*ssa.Const)
 	_, y := bo.Y.(*ssa.Const)
 	return x || y
+}
+
+// checkC15BrokenConn: the classifier that decides "the panic value reports a broken connection" (then nothing at
+// all is sent). It has to find the syscall error anywhere in the cause chain of the network error and recognise both
+// texts.
+func checkC15BrokenConn(w *World, r *Report) {
+	ru := r.Rule("C15.6", "broken-connection classifier: connIsBroken searches the cause chain of the *net.OpError with errors.As for an *os.SyscallError (no direct type assertion of the immediate cause) and matches its lower-cased text against both \"broken pipe\" and \"connection reset by peer\"", 2)
+	fn := w.Func("connIsBroken")
+	if fn == nil {
+		r.Unrecognised("C15.6: connIsBroken not found")
+		return
+	}
+	r.Analysed(FuncName(fn))
+	asOK, direct := false, ""
+	texts := map[string]bool{}
+	lower := false
+	eachInstr(fn, func(in ssa.Instruction) {
+		switch x := in.(type) {
+		case *ssa.Call:
+			obj := calleeObj(x)
+			switch {
+			case isFuncNamed(obj, "errors", "As") && len(x.Call.Args) == 2:
+				if t, ok := stripIface(x.Call.Args[1]).Type().Underlying().(*types.Pointer); ok && strings.HasSuffix(t.Elem().String(), "os.SyscallError") {
+					asOK = true
+				}
+			case isFuncNamed(obj, "strings", "Contains") && len(x.Call.Args) == 2:
+				if s, ok := constString(x.Call.Args[1]); ok {
+					texts[s] = true
+				}
+			case isFuncNamed(obj, "strings", "ToLower"):
+				lower = true
+			}
+		case *ssa.TypeAssert:
+			if strings.HasSuffix(x.AssertedType.String(), "os.SyscallError") {
+				direct = "direct assertion to " + x.AssertedType.String() + " at " + w.Pos(x.Pos()) + ": a wrapped syscall error is not recognised"
+			}
+		}
+	})
+	why := direct
+	if why == "" && !asOK {
+		why = "no errors.As(_, **os.SyscallError)"
+	}
+	ru.Check("cause search in connIsBroken", w.Pos(fn.Pos()), "errors.As with an *os.SyscallError target, no direct assertion", why == "", orDefault(why, "errors.As over the chain"))
+	ru.Check("texts matched by connIsBroken", w.Pos(fn.Pos()), "lower-cased text compared with \"broken pipe\" and \"connection reset by peer\"", lower && texts["broken pipe"] && texts["connection reset by peer"], fmt.Sprintf("lower=%v texts=%v", lower, texts))
 }
